@@ -4,7 +4,9 @@ import (
 	"archive/tar"
 	"archive/zip"
 	"bytes"
+	"context"
 	"fmt"
+	"github.com/itchio/wharf/pwr"
 	"io"
 	"os"
 	"path/filepath"
@@ -54,6 +56,8 @@ func c19Tree(seed uint64, name string) *lib.Build {
 		b.PutFile("m/big1.bin.tmp", rb(r.Range(10, 5000))) // a real entry named like a temporary file of its sibling
 		b.PutFile("m/t000.tmp", rb(77))
 		b.PutSymlink("m/lnk", "t001")
+	case "single": // exactly one regular file (file index 0 is the first and the last one a pool is asked for)
+		b.PutFile("only.bin", rb(r.Range(1000, 200000)))
 	case "small":
 		b.PutFile("a.bin", rb(3000))
 		b.PutFile(".top-dot", rb(9))
@@ -114,6 +118,15 @@ func c19Cases(tier string, seed uint64, flavor string) []lib.Case {
 			}
 			if flavor != "race" {
 				cases = append(cases, lib.Case{Seed: ts, Kind: "plain/tar", Spec: lib.MustSpec(c19Spec{Seed: ts, Tree: tr, Format: "tar", Workers: 1, Mode: "plain"})})
+			}
+		}
+		// a pool that has been used before it serves the archiver (archived twice / hashed first); one-file tree included
+		for _, tr := range []string{"single", "small"} {
+			for _, f := range []string{"czip-twice", "czip-hashed-first", "zip", "tar"} {
+				if flavor == "race" && f == "tar" {
+					continue
+				}
+				cases = append(cases, lib.Case{Seed: ts, Kind: "plain/" + f, Spec: lib.MustSpec(c19Spec{Seed: ts, Tree: tr, Format: f, Workers: []int{1, 4}[t%2], Mode: "plain"})})
 			}
 		}
 		// resumable extraction: snapshots = crash states
@@ -222,8 +235,39 @@ func c19RunInner(c lib.Case, env *lib.Env) lib.Result {
 	src := filepath.Join(env.Scratch, "src")
 	tree.Materialize(src)
 	desc := fmt.Sprintf("tree=%s format=%s workers=%d mode=%s seed=%d", s.Tree, s.Format, s.Workers, s.Mode, s.Seed)
+	// the source directory is named in a legal, non-canonical way in two cases out of three
+	os.MkdirAll(filepath.Join(env.Scratch, "x"), 0o755)
+	spell := []string{src, src + "/", src + "/.", env.Scratch + "//src", env.Scratch + "/./src", env.Scratch + "/x/../src", src, src + "//", src}[c.ID%9]
+	if spell != src {
+		desc += " sourceDirSpelled=" + strings.Replace(spell, env.Scratch, "<scratch>", 1)
+		res.Add("archives_of_a_source_directory_named_non_canonically", 1)
+		src = spell
+	}
 	var ab bytes.Buffer
 	switch s.Format {
+	case "czip-twice", "czip-hashed-first":
+		cont, err := lib.Walk(src)
+		if err != nil {
+			res.Inconclusive(err.Error())
+			return res
+		}
+		pool := fspool.New(cont, src)
+		if s.Format == "czip-twice" {
+			var first bytes.Buffer
+			if _, err := containerarchiver.CompressZip(&first, cont, pool, lib.Quiet()); err != nil {
+				res.Violate("container-compresszip-error", desc, "first archive: "+err.Error())
+				return res
+			}
+		} else if _, err := pwr.ComputeSignature(context.Background(), cont, pool, lib.Quiet()); err != nil {
+			res.Inconclusive("hash pass: " + err.Error())
+			return res
+		}
+		if _, err := containerarchiver.CompressZip(&ab, cont, pool, lib.Quiet()); err != nil {
+			res.Violate("container-compresszip-error", desc, err.Error())
+			return res
+		}
+		res.Add("archives_from_a_pool_used_before", 1)
+		s.Format = "czip"
 	case "zip":
 		if _, err := archiver.CompressZip(&ab, src, lib.Quiet()); err != nil {
 			res.Violate("compresszip-error", desc, err.Error())
@@ -459,7 +503,7 @@ func init() {
 	lib.Register(&lib.Property{
 		ID:           "C19",
 		Level:        "exploration",
-		Rule:         "trees (nested + empty dirs, empty files, symlinks to files / dirs / dangling, 600 tiny files, 1-3 MiB files among tiny ones) archived with archiver.CompressZip, containerarchiver.CompressZip and CompressTar, extracted into an empty directory (ExtractZip on a reader, or ExtractPath on the archive file in every third case) with worker counts -1 and 1..16; oracle: independent tree comparison and ExtractResult counts against the archive's entry list read with the standard library. Resumable zip extraction: inside OnEntryDone for the j-th completion the monitor snapshots first the resume file then the destination tree (= what a crash leaves), while a harness io.ReaderAt holds back the data of an earlier entry until the snapshot is taken (forced out-of-order completion, bounded wait; with one worker this degenerates to in-order); a second extraction runs on the snapshot with the copied resume file and must end with the complete tree and counts equal to the entries not skipped. Race-detector pass with 2/4/16 workers; every report with a frame in wharf/archiver is a violation. distinct = distinct (tree, format, workers | snapshot point, held entry)",
+		Rule:         "trees (nested + empty dirs, empty files, symlinks to files / dirs / dangling, 600 tiny files, 1-3 MiB files among tiny ones) archived with archiver.CompressZip, containerarchiver.CompressZip (also from a pool that archived or hashed the tree before, incl. a one-file tree) and CompressTar, the source directory named canonically or as dir/, dir/., a//dir, a/./dir, a/x/../dir, extracted into an empty directory (ExtractZip on a reader, or ExtractPath on the archive file in every third case) with worker counts -1 and 1..16; oracle: independent tree comparison and ExtractResult counts against the archive's entry list read with the standard library. Resumable zip extraction: inside OnEntryDone for the j-th completion the monitor snapshots first the resume file then the destination tree (= what a crash leaves), while a harness io.ReaderAt holds back the data of an earlier entry until the snapshot is taken (forced out-of-order completion, bounded wait; with one worker this degenerates to in-order); a second extraction runs on the snapshot with the copied resume file and must end with the complete tree and counts equal to the entries not skipped. Race-detector pass with 2/4/16 workers; every report with a frame in wharf/archiver is a violation. distinct = distinct (tree, format, workers | snapshot point, held entry)",
 		Assumptions:  []string{"a crash is modelled as a snapshot of resume file then tree (file contents only; no kernel-level reordering)", "tar extraction is sequential by construction"},
 		Flavors:      func(tier string) []string { return []string{"plain", "race"} },
 		Cases:        c19Cases,
